@@ -343,7 +343,23 @@ class Check:
             ok3, out = print_assumptions(prop_file)
             self.axioms = assumptions_from_log(out)
             self.discharged = list(self.obligations) if ok3 else []
+            if self.tier == "thorough" and ok3 and os.environ.get("VERIF_NO_COQCHK") != "1":
+                self.coqchk(prop_file)
             return ok and ok3
+
+    def coqchk(self, prop_file):
+        """independent re-check of the compiled property file and everything it depends on (thorough tier)"""
+        lib = "Verif." + prop_file[:-2].replace("/", ".")
+        p = subprocess.run(["timeout", "1500", "coqchk", "-silent", "-o", "-Q", ".", "Verif", lib],
+                           cwd=COQ, capture_output=True, text=True)
+        out = p.stdout + p.stderr
+        if p.returncode != 0:
+            self.broken.append(("proof", "coqchk rejected " + lib + ": " + out[-400:]))
+            self.discharged = []
+            return
+        ax = re.findall(r"^\s*([A-Za-z_][\w.]*\.[\w.']+)\s*$", out.split("* Axioms:")[-1], flags=re.M) if "* Axioms:" in out else []
+        self.notes.append("coqchk -o: ok")
+        self.trusted.append("coqchk -o re-checked " + lib + "; axioms it lists: " + (", ".join(sorted(set(ax))) or "<none>"))
 
     def count(self, stratum, case_key, nontrivial=True):
         self.cov["evaluations"] += 1
